@@ -21,6 +21,17 @@ def nonvacuity(ctx):
 
 def run(ctx):
     if ctx.replay:
+        # dispatch the replay file to the module that wrote it
+        _rp = vlib.json.load(open(ctx.replay)).get("replay")
+        if isinstance(_rp, dict) and "beh" in _rp and "listen" in _rp:          # updial_extra (drv_updial)
+            import updial_extra
+            return updial_extra.run_extra(ctx)
+        if isinstance(_rp, dict) and _rp.get("mode") == "arm":                   # pipeconn_c07 (drv_pipeconn, deadline arming)
+            import pipeconn_c07
+            return pipeconn_c07.run_extra(ctx)
+        if isinstance(_rp, dict) and _rp.get("driver") == "drv_pipeline":        # pipeconn_c08 / pipeline_part
+            import pipeline_part
+            return pipeline_part.replay(ctx, _rp)
         return pl.replay(ctx)
     T = ctx.thorough()
     W = 8 if T else 4
